@@ -26,3 +26,40 @@ void h_begin(void)          { SP *p; sp_begin(p); __CPROVER_assert(0, "SENTINEL 
 #ifdef CV_HAS_sp_end
 void h_end(void)            { SP *p; sp_end(p); __CPROVER_assert(0, "SENTINEL reachable"); }
 #endif
+
+#ifdef CV_HAS_sp_merge
+void h_merge(void)          { SP *p, *q; sp_merge(p, q); __CPROVER_assert(0, "SENTINEL reachable after operator<<"); }
+#endif
+#ifdef CV_HAS_sp_merge_handle
+void h_merge_handle(void)   { SP *p; CH *h; sp_merge_handle(p, h); __CPROVER_assert(0, "SENTINEL reachable after operator<<(handle)"); }
+#endif
+#ifdef CV_HAS_sp_move_assign
+void h_move_assign(void)    { SP *p, *q; sp_move_assign(p, q); __CPROVER_assert(0, "SENTINEL reachable after operator="); }
+#endif
+#ifdef CV_HAS_sp_ctor_default
+void h_ctor_default(void)   { SP *p; sp_ctor_default(p); __CPROVER_assert(0, "SENTINEL reachable"); }
+#endif
+#ifdef CV_HAS_sp_await_ready
+void h_await_ready(void)    { SP *p; sp_await_ready(p); __CPROVER_assert(0, "SENTINEL reachable"); }
+#endif
+#ifdef CV_HAS_spb_ctor_val
+void h_spb_ctor_val(void)   { SPB *p; cv_i1 v; spb_ctor_val(p, v); __CPROVER_assert(0, "SENTINEL reachable"); }
+#endif
+#ifdef CV_HAS_spb_ctor_h
+void h_spb_ctor_h(void)     { SPB *p; cv_i8 *h; cv_i1 v; spb_ctor_h(p, h, v); __CPROVER_assert(0, "SENTINEL reachable"); }
+#endif
+#ifdef CV_HAS_spb_ctor_from
+void h_spb_ctor_from(void)  { SPB *p; SP *q; cv_i1 v; spb_ctor_from(p, q, v); __CPROVER_assert(0, "SENTINEL reachable"); }
+#endif
+#ifdef CV_HAS_spb_get
+void h_spb_get(void)        { SPB *p; spb_get(p); __CPROVER_assert(0, "SENTINEL reachable"); }
+#endif
+#ifdef CV_HAS_spb_await_resume
+void h_spb_await_resume(void) { SPB *p; spb_await_resume(p); __CPROVER_assert(0, "SENTINEL reachable"); }
+#endif
+#ifdef CV_HAS_spi_ctor_from
+void h_spi_ctor_from(void)  { SPI *p; SP *q; cv_i32 v; spi_ctor_from(p, q, v); __CPROVER_assert(0, "SENTINEL reachable"); }
+#endif
+#ifdef CV_HAS_spi_get
+void h_spi_get(void)        { SPI *p; spi_get(p); __CPROVER_assert(0, "SENTINEL reachable"); }
+#endif
